@@ -22,7 +22,9 @@ RULE = (
     "loads and prizes on the lattice). (1) every robustly feasible candidate is replayed through reset/step: each of "
     "its actions must be inside the offered mask and the episode must end done; (2) the env is expanded breadth "
     "first over all True mask entries and the best reachable reward must equal the brute-force optimum. "
-    "Non-trivial instance = >=1 infeasible and >=10 feasible candidates; exhaustive per instance."
+    "Non-trivial instance = >=1 infeasible and >=10 feasible candidates; exhaustive per instance. FJSP/JSSP: true optimum "
+    "over semi-active schedules vs breadth-first expansion; FFSP: reachable set of complete sequences vs exhaustive "
+    "DFS of the reference decision process."
 )
 ASSUMPTIONS = [
     "documented pruning respected: no depot->depot move while a customer is servable; empty SVRP routes only when the "
@@ -31,7 +33,10 @@ ASSUMPTIONS = [
     "margin, MTVRP strict '<' on window ends) are don't-care inside a 1e-4 band",
     "FJSP/JSSP: with waiting allowed (mask_no_ops=False) the reachable optimum must equal the true optimum over "
     "semi-active schedules; with mask_no_ops=True (documented non-delay pruning) only 'not better than optimal' is asserted",
-    "FFSP (per-object index tables tied to the reset batch size) is judged against its reference simulator in C07",
+    "FFSP: the MatNet decision process (each machine in turn picks a waiting job; idling only while a job can still "
+    "arrive at the stage) is itself a pruning that can lose the true optimum (counted, not asserted); asserted is "
+    "that the set of complete dispatch sequences / schedules reachable through the mask equals the set of the "
+    "reference decision process (exhaustive DFS, <= 3 jobs x 2 stages x 2 machines) and that nothing beats the true optimum",
 ]
 MAX_CAND = 30000
 
@@ -344,6 +349,146 @@ def jobshop_cases(tier):
     return c()
 
 
+# --------------------------------------------------------------------------- FFSP (MatNet decision process)
+def ffsp_model_leaves(I, S, M, cap=60000):
+    """all complete action sequences of the reference decision process (DFS over the model's own masks)"""
+    import copy
+    from ..oracles.scheduling import FFSPModel
+    leaves, stack, n = [], [(FFSPModel(I, S, M), [])], 0
+    while stack:
+        m, acts = stack.pop()
+        if m.done:
+            J = m.J
+            leaves.append((tuple(tuple(r[:J]) for r in m.start), tuple(acts)))
+            continue
+        for a, ok in enumerate(m.mask()):
+            if ok:
+                n += 1
+                if n > cap:
+                    return None
+                m2 = copy.deepcopy(m)
+                m2.step(a)
+                stack.append((m2, acts + [a]))
+    return leaves
+
+
+def ffsp_true_optimum(I, S, M):
+    """min makespan over machine choices x stage-respecting op orders, earliest-start list scheduling"""
+    R = I["run_time"]
+    J = len(R)
+    tokens = [j for j in range(J) for _ in range(S)]
+    best = math.inf
+    for order in set(itertools.permutations(tokens)):
+        for assign in itertools.product(range(M), repeat=J * S):
+            ptr, jready, mfree, mk = [0] * J, [0] * J, [0] * (S * M), 0
+            for j in order:
+                s_ = ptr[j]
+                ptr[j] += 1
+                m = s_ * M + assign[j * S + s_]
+                st_ = max(jready[j], mfree[m])
+                fi = st_ + R[j][m]
+                jready[j] = mfree[m] = fi
+                mk = max(mk, fi)
+            best = min(best, mk)
+    return best
+
+
+def ffsp_env_leaves(env, inst1, J, cap=60000, cap_steps=400):
+    """breadth-first expansion of the real env over all True mask entries; the env's machine-permutation tables are
+    indexed by row // reset-batch-size, so the table batch size is raised after the reset: every frontier row then
+    reads permutation 0, which is what every row of an un-augmented batch gets"""
+    td = env.reset(inst1.clone())
+    env.tables.set_bs(10 ** 9)
+    hist = torch.zeros(1, 0, dtype=torch.long)
+    leaves, n = [], 0
+    for _ in range(cap_steps):
+        K = td.batch_size[0]
+        mask = flat_mask(td["action_mask"], K)
+        rows, acts = torch.nonzero(mask, as_tuple=True)
+        n += rows.numel()
+        if n > cap:
+            return None
+        td = td[rows].clone()
+        td.set("action", acts)
+        hist = torch.cat([hist[rows], acts[:, None]], 1)
+        td = env.step(td)["next"]
+        done = row_done(td["done"], td.batch_size[0])
+        if bool(done.any()):
+            end = td["schedule"][done] + td["job_duration"][done].permute(0, 2, 1)
+            mk = end[:, :, :J].amax((1, 2))
+            for sch, h, k in zip(td["schedule"][done][:, :, :J].tolist(), hist[done].tolist(), mk.tolist()):
+                leaves.append((tuple(tuple(r) for r in sch), tuple(h), k))
+        if bool(done.all()):
+            return leaves
+        td, hist = td[~done], hist[~done]
+    return None
+
+
+def execute_ffsp(case, ctx):
+    cfg = case["cfg"]
+    spec = SPECS["ffsp"]
+    S, M, J = cfg["stages"], cfg["mas"], cfg["jobs"]
+    inst = ctx.guard(spec.instance, case, what="instance|ffsp")
+    I = py_instance("ffsp", inst[0])
+    sl = spec.slice_of(cfg)
+    ctx.event(f"env:ffsp|J{J}S{S}M{M}")
+    want = ffsp_model_leaves(I, S, M)
+    if want is None:
+        ctx.exclude("model_tree_too_large")
+        return
+    got = ctx.guard(ffsp_env_leaves, spec.build(cfg), inst[0:1], J, what=f"expand|ffsp|{sl}")
+    if got is None:
+        ctx.violation(f"ffsp|{sl}|reachable_set_vs_model|env_tree_larger", "the env's mask-reachable tree exceeds the cap although the reference tree is small",
+                      {"instance": I, "model_leaves": len(want)})
+        return
+    ctx.event("expanded_leaves", len(got))
+    want_seq = {a for _, a in want}
+    got_seq = {a for _, a, _ in got}
+    det = {"instance": I, "cfg": cfg}
+    missing = sorted(want_seq - got_seq)
+    extra = sorted(got_seq - want_seq)
+    if missing:
+        ctx.violation(f"ffsp|{sl}|mask_hides_feasible|sequence", f"{len(missing)} complete dispatch sequences of the reference decision process are not reachable through the mask, e.g. {list(missing[0])}",
+                      {**det, "sequence": list(missing[0])})
+    if extra:
+        ctx.violation(f"ffsp|{sl}|reachable_set_vs_model|extra", f"{len(extra)} mask-reachable complete sequences are not sequences of the reference decision process, e.g. {list(extra[0])}",
+                      {**det, "sequence": list(extra[0])})
+    wsch = {s for s, _ in want}
+    gsch = {s for s, _, _ in got}
+    if wsch != gsch and not missing and not extra:
+        ctx.violation(f"ffsp|{sl}|reachable_schedules_vs_model", "same sequences but different stored schedules", det)
+    R = I["run_time"]
+
+    def mk_of(sch):
+        return max(sch[m][j] + R[j][m] for m in range(S * M) for j in range(J) if sch[m][j] >= 0)
+    best_model = min(mk_of(s) for s in wsch)
+    best_env = min(k for _, _, k in got)
+    if best_env != best_model:
+        ctx.violation(f"ffsp|{sl}|optimum_unreachable" if best_env > best_model else f"ffsp|{sl}|reachable_better_than_optimum",
+                      f"best mask-reachable makespan {best_env} != best makespan of the reference decision process {best_model}", det)
+    if J * S <= 6:
+        opt = ffsp_true_optimum(I, S, M)
+        if best_model < opt:
+            ctx.violation(f"ffsp|{sl}|reachable_better_than_optimum", f"makespan {best_model} below the true optimum {opt}", det)
+        ctx.event("decision_process_contains_true_optimum" if best_model == opt else "formulation_pruning_loses_true_optimum(not asserted)")
+    if len(want) >= 10 and J >= 2:
+        ctx.nontriv({"cfg": cfg, "inst": I})
+    ctx.sample({"env": "ffsp", "cfg": cfg, "leaves": len(got), "schedules": len(gsch), "best_makespan": best_env})
+
+
+def ffsp_cases(tier):
+    spec = SPECS["ffsp"]
+
+    @st.composite
+    def c(draw):
+        cfg = {"jobs": draw(st.integers(1, 3)), "stages": draw(st.integers(1, 2)), "mas": draw(st.integers(1, 2)),
+               "max_time": draw(st.sampled_from([2, 3, 5])), "flatten": draw(st.booleans())}
+        case = {"env": "ffsp", "cfg": cfg, "B": 1, "src": "lat", "seed": draw(st.integers(0, 2 ** 31 - 1))}
+        case["lat"] = draw(spec.lattice(cfg, 1))
+        return case
+    return c()
+
+
 # --------------------------------------------------------------------------- the check
 def execute(case, ctx):
     name, cfg = case["env"], case["cfg"]
@@ -454,5 +599,6 @@ def cases(tier):
 SUBS = [
     Sub("enumerate", execute, strategy=cases, budget={"quick": 2000, "thorough": 12000}, shards=16, shrink=True),
     Sub("jobshop", execute_jobshop, strategy=jobshop_cases, budget={"quick": 320, "thorough": 2500}, shards=16, shrink=True),
+    Sub("ffsp", execute_ffsp, strategy=ffsp_cases, budget={"quick": 320, "thorough": 4000}, shards=16, shrink=True),
 ]
 TIME_CAP = {"quick": 500, "thorough": 3400}
